@@ -18,7 +18,7 @@ from concurrent.futures import ThreadPoolExecutor
 
 ROOT = os.path.dirname(os.path.abspath(__file__))
 REPO = os.environ.get("VERIF_REPO", "/repo")
-BUILD = os.path.join(ROOT, "build")
+BUILD = os.environ.get("VERIF_BUILD") or os.path.join(ROOT, "build")
 HARN = os.path.join(ROOT, "harness")
 GUARD = "BEARSSL_ESP8266_VERIF"
 NCPU = os.cpu_count() or 4
@@ -583,8 +583,9 @@ def cmd_check(pid, tier, only=None, keep=False, jobs=None):
         "wall_s": round(time.time() - t0, 1),
         "violations": violations,
     }
-    os.makedirs(os.path.join(ROOT, "evidence"), exist_ok=True)
-    with open(os.path.join(ROOT, "evidence", pid + ".json"), "w") as f:
+    evdir = os.environ.get("VERIF_EVIDENCE_DIR") or os.path.join(ROOT, "evidence")
+    os.makedirs(evdir, exist_ok=True)
+    with open(os.path.join(evdir, pid + ".json"), "w") as f:
         json.dump(ev, f, indent=1)
     print("%s tier=%s queries=%d pass=%d known=%d violations=%d inconclusive=%d wall=%.0fs" %
           (pid, tier, len(results), len(passed), len(seenk), violations, inconclusive, time.time() - t0))
